@@ -20,8 +20,62 @@ let print_result (r : (n list * nat option) outcome) : string =
 
 let rec fill (k : int) (acc : n list) : n list = if k <= 0 then acc else fill (k - 1) (n_of_int 170 :: acc)
 
+(* ---- C16: op histories ---- *)
+let fault_name f = match f with
+  | EFNull -> "NULL" | EFAssert -> "ASSERT" | EFWritePast -> "WRITEPAST" | EFDeadIter -> "DEADITER"
+  | EFIntOverflow -> "INTOVERFLOW" | EFOracle -> "ORACLE"
+
+let parse_hr (s : string) : hr =
+  match String.split_on_char ':' s with
+  | [p; l; h; w; sg] ->
+    { pfx = bytes_of_hex p; lo = n_of_decimal l; hi = n_of_decimal h;
+      wid = nat_of_int (int_of_string w); single = (sg = "1") }
+  | _ -> failwith "range"
+
+let parse_op (t : string) : op =
+  let name, arg = match String.index_opt t ':' with
+    | None -> t, ""
+    | Some i -> String.sub t 0 i, String.sub t (i + 1) (String.length t - i - 1) in
+  match name with
+  | "push" -> OPush (bytes_of_hex arg)
+  | "shift" -> OShift
+  | "pop" -> OPop
+  | "count" -> OCount
+  | "nth" -> ONth (z_of_int (int_of_string arg))
+  | "find" -> OFind (bytes_of_hex arg)
+  | "delete_host" -> ODeleteHost (bytes_of_hex arg)
+  | "delete_nth" -> ODeleteNth (z_of_int (int_of_string arg))
+  | "delete" -> ODelete (bytes_of_hex arg)
+  | "uniq" -> OUniq (if arg = "" then [] else List.map parse_hr (String.split_on_char '/' arg))
+  | "iter_new" -> OIterNew
+  | "iter_next" -> OIterNext (nat_of_int (int_of_string arg))
+  | "iter_remove" -> OIterRemove (nat_of_int (int_of_string arg))
+  | "iter_reset" -> OIterReset (nat_of_int (int_of_string arg))
+  | "iter_destroy" -> OIterDestroy (nat_of_int (int_of_string arg))
+  | _ -> failwith "op"
+
+let obs_string (o : op) (v : obs) (st : hstate) : string =
+  match v with
+  | VName None -> "~"
+  | VName (Some b) -> hex_of_bytes b
+  | VInt z -> string_of_int (int_of_z z)
+  | VUnit -> (match o with OUniq _ -> "q=" ^ hexlist (st_names st) | _ -> "u")
+
+let run_ops (prog : string) : string =
+  let ops = List.map parse_op (List.filter (fun x -> x <> "") (String.split_on_char ';' prog)) in
+  let rec go st ops k acc =
+    match ops with
+    | [] ->
+      "OK " ^ String.concat ";" (List.rev acc) ^ "|" ^ string_of_int (int_of_z (st_count st)) ^ "|" ^ hexlist (st_names st)
+    | o :: rest ->
+      (match step st o with
+       | ROk (st', v) -> go st' rest (k + 1) (obs_string o v st' :: acc)
+       | RFault f -> "FAULT " ^ string_of_int k ^ " " ^ fault_name f ^ " " ^ String.concat ";" (List.rev acc))
+  in go st_empty ops 0 []
+
 let handle (w : string list) : string =
   match w with
+  | ["ops"; prog] -> run_ops prog
   | ["parse"; h] ->
     (match create (bytes_of_hex h) with
      | Ok hl -> "N=" ^ string_of_int (int_of_z hl.nhosts) ^ " OK " ^ hexlist (iter_all hl.ranges)
